@@ -19,6 +19,7 @@ import (
 	"os"
 	"runtime"
 	"sort"
+	"strconv"
 	"strings"
 	"sync"
 	"sync/atomic"
@@ -26,6 +27,7 @@ import (
 
 	"github.com/gopacket/gopacket/layers"
 	"go.uber.org/zap"
+	"go.uber.org/zap/zapcore"
 
 	"github.com/scionproto/scion/router"
 	"github.com/scionproto/scion/router/underlayproviders/udpip"
@@ -121,7 +123,7 @@ func genCfg(r *vgen.Rand, i int) caseCfg {
 		Reuse:    r.Bool(),
 		BFD:      r.Chance(1, 2),
 		Profile:  profiles[i%len(profiles)],
-		Packets:  r.Range(60, 200),
+		Packets:  r.Range(40, 120),
 		PPartial: vgen.Pick(r, 0, 10, 30, 60),
 		PErr:     vgen.Pick(r, 0, 5, 20),
 		ReadErr:  vgen.Pick(r, 0, 0, 3),
@@ -531,22 +533,44 @@ func sibDisc(conns []*fakeConn) uint32 {
 	return conns[cInt].bfdDisc.Load()
 }
 
-// term prints the case as Pool.CTrace n kinds events final.
+// term prints the case as Pool.CTrace n kinds events notpool; all numbers are below 256 and
+// written as the identifiers of Lib/SmallNat.v (see there).
 func term(o *caseOut) string {
-	kinds := make([]uint64, len(o.Threads))
+	b := func(v int) string { return "b" + strconv.Itoa(v) }
+	kinds := make([]string, len(o.Threads))
 	for i, t := range o.Threads {
-		kinds[i] = uint64(t.Stage)
+		kinds[i] = b(t.Stage)
 	}
-	evs := make([]uint64, len(o.Events))
-	for i, e := range o.Events {
-		evs[i] = uint64(e.Kind) + 4*(uint64(e.G)+256*uint64(e.Tok+1))
+	// The buffers a receive loop presents to ReadBatch are left out of the Coq trace (they are
+	// checked by the tracker itself): elaborating the terms dominates the cost of the check.
+	evs := make([]string, 0, len(o.Events))
+	for _, e := range o.Events {
+		if e.Kind == router.VerifPoolUse && o.Threads[e.G].Stage == router.VerifPoolStageRecv {
+			continue
+		}
+		tok := e.Tok
+		if tok < 0 {
+			tok = o.N // not a pool buffer
+		}
+		evs = append(evs, [...]string{"G ", "P ", "U "}[e.Kind]+b(e.G)+" "+b(tok))
 	}
-	fin := make([]uint64, len(o.Final))
-	for i, f := range o.Final {
-		fin[i] = uint64(f)
+	var np []string
+	for t, f := range o.Final {
+		if f != 0 {
+			np = append(np, vgen.Pair(b(t), b(f)))
+		}
 	}
-	return vgen.App("Pool.CTrace", vgen.N(uint64(o.N)), vgen.NList(kinds), vgen.NList(evs),
-		vgen.NList(fin))
+	return vgen.App("CTrace", b(o.N), vgen.List(kinds), vgen.List(evs), vgen.List(np))
+}
+
+// panicOnly lets through what log.HandlePanic writes and nothing else.
+type panicOnly struct{ zapcore.Core }
+
+func (p panicOnly) Check(e zapcore.Entry, ce *zapcore.CheckedEntry) *zapcore.CheckedEntry {
+	if e.Message == "Panic" {
+		return ce.AddCore(e, p.Core)
+	}
+	return ce
 }
 
 func main() {
@@ -555,18 +579,21 @@ func main() {
 	zcfg := zap.NewProductionConfig()
 	zcfg.Level = zap.NewAtomicLevelAt(zap.ErrorLevel)
 	zcfg.OutputPaths = []string{"stderr"}
-	if lg, err := zcfg.Build(); err == nil {
+	if lg, err := zcfg.Build(zap.WrapCore(func(c zapcore.Core) zapcore.Core {
+		return panicOnly{c}
+	})); err == nil {
 		zap.ReplaceGlobals(lg)
 	}
 	run := vgen.Flags("C14")
-	run.Imports = []string{"Model.Pool"}
+	run.Imports = []string{"Model.Pool", "Lib.SmallNat"}
+	run.Prelude = "Import SmallNat. Import Pool."
 	run.CheckFn = "Pool.check"
 	run.DiagFn = "Pool.diag"
 	run.CaseType = "Pool.case"
 	run.ShardSize = 12
 	run.Rule = "each case = one run of the real dataplane (Run .. Shutdown) over the udpip provider " +
 		"with fake sockets: seeded configuration (batch 1-8, 1-3 processors, 1-2 slow-path " +
-		"processors, GOMAXPROCS 1-8, shared or own sibling socket, BFD on/off), 60-200 datagrams of " +
+		"processors, GOMAXPROCS 1-8, shared or own sibling socket, BFD on/off), 40-120 datagrams of " +
 		"21 kinds under 7 traffic profiles, partial/failed WriteBatch, read errors, slow and blocked " +
 		"senders, direct bfdSend.Send callers, optional sender holding a batch at shutdown; " +
 		"non-trivial = buffers were returned by at least 3 different stages and at least one fault " +
